@@ -275,11 +275,18 @@ func (t *tattach) handle(cs *connState) message {
 		defer cs.server.renameMu.RUnlock()
 		cs.server.pathTree.opMu.RLock()
 		defer cs.server.pathTree.opMu.RUnlock()
+		// Drop the file if GetAttr fails - or panics.
+		ok := false
+		defer func() {
+			if !ok {
+				sf.Close()
+			}
+		}()
 		qid, valid, attr, err = sf.GetAttr(AttrMaskAll)
+		ok = err == nil
 		return err
 	}()
 	if err != nil {
-		sf.Close() // Drop file.
 		return newErr(err)
 	}
 	if !valid.Mode {
@@ -1253,11 +1260,17 @@ func walkOne(qids []QID, from File, names []string, getattr bool) ([]QID, File, 
 			break
 		}
 		if getattr {
-			_, valid, attr, err = sf.GetAttr(AttrMaskAll)
-			if err != nil {
-				// Don't leak the file.
-				sf.Close()
-			}
+			func() {
+				// Don't leak the file, not even if GetAttr panics.
+				ok := false
+				defer func() {
+					if !ok {
+						sf.Close()
+					}
+				}()
+				_, valid, attr, err = sf.GetAttr(AttrMaskAll)
+				ok = err == nil
+			}()
 		}
 	}
 	if err != nil {
@@ -1333,11 +1346,19 @@ func doWalk(cs *connState, ref *fidRef, names []string, getattr bool) (qids []QI
 	// Do the walk, one element at a time.
 	walkRef := ref
 	walkRef.IncRef()
+	// The walk reference (of whichever element the walk has reached) is
+	// dropped on every way out but success, a backend panic included. No lock
+	// is required for that.
+	success := false
+	defer func() {
+		if !success {
+			walkRef.DecRef()
+		}
+	}()
 	for i := 0; i < len(names); i++ {
 		// We won't allow beyond past symlinks; stop here if this isn't
 		// a proper directory and we have additional paths to walk.
 		if !walkRef.mode.IsDir() {
-			walkRef.DecRef() // Drop walk reference; no lock required.
 			return nil, nil, AttrMask{}, Attr{}, linux.EINVAL
 		}
 
@@ -1387,12 +1408,12 @@ func doWalk(cs *connState, ref *fidRef, names []string, getattr bool) (qids []QI
 			walkRef.IncRef()
 			return nil
 		}); err != nil {
-			walkRef.DecRef() // Drop the old walkRef.
 			return nil, nil, AttrMask{}, Attr{}, err
 		}
 	}
 
 	// Success.
+	success = true
 	return qids, walkRef, valid, attr, nil
 }
 
